@@ -76,11 +76,30 @@ Proof. exact fill_order. Qed.
 Lemma C06_escape_free : forall s, special_free (run_escape escape_ops true s).
 Proof. intros s. exact (proj1 (C18_escape_no_special s)). Qed.
 
-Theorem C06_whole_document_is_well_nested : forall hw s out, core_html true hw s = Ok out -> html false out.
+Lemma ext_template_cases6 : forall name (P : template -> Prop),
+  P tmpl_formatting_render_strikethrough -> P tmpl_formatting_render_mark -> P tmpl_formatting_render_insert ->
+  P tmpl_formatting_render_superscript -> P tmpl_formatting_render_subscript -> P tmpl_html_emphasis -> P (ext_template name).
+Proof. intros name P H1 H2 H3 H4 H5 H6. unfold ext_template. repeat (destruct (is_name name _); [assumption|]). assumption. Qed.
+
+Lemma ext_render : forall name ch, exists tag, In tag ext_tags /\
+  render (html_env true) escape_ops (ext_template name) [PStr ch] = [60] ++ tag ++ [62] ++ ch ++ [60; 47] ++ tag ++ [62].
 Proof.
-  intros hw s out H. unfold core_html, bind in H. destruct (core_doc_parse hw s) as [ast| |]; try discriminate.
+  intros name ch.
+  apply (ext_template_cases6 name (fun t => exists tag, In tag ext_tags /\ render (html_env true) escape_ops t [PStr ch] = [60] ++ tag ++ [62] ++ ch ++ [60; 47] ++ tag ++ [62])).
+  - exists s_del. split; [cbn; tauto|cbn; rewrite ?app_nil_r; reflexivity].
+  - exists s_mark. split; [cbn; tauto|cbn; rewrite ?app_nil_r; reflexivity].
+  - exists s_ins. split; [cbn; tauto|cbn; rewrite ?app_nil_r; reflexivity].
+  - exists s_sup. split; [cbn; tauto|cbn; rewrite ?app_nil_r; reflexivity].
+  - exists s_sub. split; [cbn; tauto|cbn; rewrite ?app_nil_r; reflexivity].
+  - exists s_em. split; [cbn; tauto|cbn; rewrite ?app_nil_r; reflexivity].
+Qed.
+
+(* px: with the six inline plugins of the model *)
+Theorem C06_whole_document_is_well_nested : forall px hw s out, html_x px true hw s = Ok out -> html false out.
+Proof.
+  intros px hw s out H. unfold html_x, bind in H. destruct (doc_parse_x px hw s) as [ast| |]; try discriminate.
   inversion H; subst out.
-  apply (doc_html (html_env true) escape_ops eq_refl C06_escape_free).
+  apply (doc_html (html_env true) escape_ops ext_template eq_refl ext_render C06_escape_free).
   - intros u. exact (safe_url_free escape_ops harmful_protocols good_data_protocols C06_escape_free u).
   - intros t. exact (C18_safe_entity_no_special t).
 Qed.
@@ -90,8 +109,8 @@ Example C06_grammar_rejects : ~ html false [60] /\ ~ html false [60; 97; 32; 98;
 Proof. split; [apply grammar_rejects_lt|apply grammar_rejects_open_attr]. Qed.
 
 (* and every string of the grammar is read back to character data by the context reader of C02 *)
-Theorem C06_well_nested_output_is_a_fragment : forall hw s out, core_html true hw s = Ok out -> hrun Data out = Data.
-Proof. intros hw s out H. exact (html_returns_to_data false out (C06_whole_document_is_well_nested hw s out H)). Qed.
+Theorem C06_well_nested_output_is_a_fragment : forall px hw s out, html_x px true hw s = Ok out -> hrun Data out = Data.
+Proof. intros px hw s out H. exact (html_returns_to_data false out (C06_whole_document_is_well_nested px hw s out H)). Qed.
 
 Print Assumptions C06_templates_balanced.
 Print Assumptions C06_leaves_escaped_once.
